@@ -273,7 +273,7 @@ def run_sync_groups(rep, tier, seed):
             if p['kind'] in LIVENESS_KINDS: continue        # C09's business
             if reported < 3:
                 reported += 1
-                only_corr = p['kind'] in ('group-differs-from-model', 'group-model-error')
+                only_corr = p['kind'] in ('group-model-error',)
                 obj = {'kind': 'K8-' + p['kind'], 'problem': p, 'scenario': r['scenario'], 'schedule': r['sched'],
                        'scenario_seed': r['sc_seed'], 'history': r['history'], 'groups': r.get('groups')}
                 if only_corr:
